@@ -149,7 +149,9 @@ type c14Served struct {
 func c14Run(ci any) Result {
 	c := ci.(*c14Case)
 	e := echo.New()
-	if len(c.Reqs)%2 == 0 {
+	if c.Limit%3 == 2 && len(c.Reqs)%2 == 0 {
+		e.Pre(middleware.BodyLimit(c.LimitStr)) // installed before the router
+	} else if len(c.Reqs)%2 == 0 {
 		e.Use(middleware.BodyLimit(c.LimitStr))
 	} else {
 		// the same middleware through its other constructor (no Skipper given: the default one is filled in)
